@@ -15,6 +15,16 @@ LOCS = ["CELLS", "POINTS"]
 
 def build(cfg):
     cls, dims, order, rev, inc, loc = cfg["cls"], cfg["dims"], cfg["order"], cfg["rev"], cfg["inc"], cfg["loc"]
+    if cls == "uniform" and cfg.get("spacing") is not None:
+        sp = cfg["spacing"]
+        return fm.UniformGrid(dims, spacing=(sp, sp, sp), origin=(0.0, 0.0, 0.0), order=order, axes_reversed=rev, axes_increase=inc, data_location=loc)
+    if cls == "rect_i16":
+        # axes handed in as narrow integers (e.g. NetCDF 'short' levels): coordinates near the type's range
+        axes = []
+        for k, d in enumerate(dims):
+            a = (np.arange(d, dtype=np.int64) * 9000 + 14000).astype(np.int16)
+            axes.append(a if inc[k] else a[::-1])
+        return fm.RectilinearGrid(axes, order=order, axes_reversed=rev, data_location=loc)
     if cls == "uniform" and cfg.get("sym"):
         # identical coordinates on every axis (square/cubic domain): transposition errors do not change the shape here
         return fm.UniformGrid(dims, spacing=(1.0, 1.0, 1.0), origin=(0.0, 0.0, 0.0), order=order, axes_reversed=rev, axes_increase=inc, data_location=loc)
@@ -34,6 +44,10 @@ def build(cfg):
 def ref_axes(cfg):
     """increasing coordinate axes in x,y,z order, computed without finam"""
     cls, dims = cfg["cls"], cfg["dims"]
+    if cls == "uniform" and cfg.get("spacing") is not None:
+        return [np.arange(d) * cfg["spacing"] for d in dims]
+    if cls == "rect_i16":
+        return [np.arange(d) * 9000.0 + 14000.0 for d in dims]
     if cls == "uniform" and cfg.get("sym"):
         return [np.arange(d) * 1.0 for d in dims]
     if cls == "uniform":
@@ -199,7 +213,7 @@ def run_case(case):
     if case["kind"] == "geom":
         for cfg in case["cfgs"]:
             res["n"] += 1
-            nontriv = cfg["rev"] or cfg["order"] == "C" or not all(cfg["inc"]) or cfg["cls"] == "esri"
+            nontriv = cfg["rev"] or cfg["order"] == "C" or not all(cfg["inc"]) or cfg["cls"] == "esri" or max(cfg["dims"]) > 4
             res["nontrivial"] += 1 if nontriv else 0
             cnt["geom_" + cfg["cls"]] = cnt.get("geom_" + cfg["cls"], 0) + 1
             for clause, detail in check_geometry(cfg):
@@ -239,6 +253,24 @@ def gen_cfgs(tier):
         for nr in lens:
             for order in "FC":
                 cfgs.append(dict(cls="esri", dims=(nc, nr), order=order, rev=True, inc=(True, False), loc="CELLS"))
+    # size sweep: many cells along one axis (index arithmetic of the cell tables), spacings that are not binary fractions
+    # (axis generation), narrow integer axes
+    for n in range(2, 131 if tier == "quick" else 200):
+        for order, rev in (("F", False), ("C", False), ("F", True)):
+            if n % 3 and (order, rev) != ("C", False) and n not in (50, 99, 104, 108):
+                continue
+            cfgs.append(dict(cls="uniform", dims=(n, 3), order=order, rev=rev, inc=(True, True), loc="CELLS"))
+    cfgs.append(dict(cls="uniform", dims=(8, 8, 3), order="C", rev=False, inc=(True, True, True), loc="CELLS"))
+    cfgs.append(dict(cls="uniform", dims=(9, 9, 3), order="F", rev=True, inc=(True, False, True), loc="POINTS"))
+    for sp in (0.1, 0.2, 0.05, 0.3, 0.7, 1e-3, 1e6 + 0.1):
+        for n in (2, 3, 4, 6, 7, 12, 13, 24, 29, 48):
+            cfgs.append(dict(cls="uniform", dims=(n, 3), order="F", rev=False, inc=(True, False), loc="POINTS", spacing=sp))
+            cfgs.append(dict(cls="uniform", dims=(3, n), order="C", rev=True, inc=(True, False), loc="CELLS", spacing=sp))
+    for dims in ((2,), (3,), (2, 3), (3, 2, 2)):
+        for loc in LOCS:
+            for order in "FC":
+                cfgs.append(dict(cls="rect_i16", dims=dims, order=order, rev=False, inc=tuple([True] * len(dims)), loc=loc))
+                cfgs.append(dict(cls="rect_i16", dims=dims, order=order, rev=True, inc=tuple([False] * len(dims)), loc=loc))
     return cfgs
 
 
